@@ -38,6 +38,7 @@ m = {
         {"name": "sim", "path": "harness/src/engine/sim.rs", "serves_properties": sorted(p for p in PLANS if any(j["bin"] == "simrun" for j in PLANS[p]["quick"])), "kind_free_text": "deterministic single-threaded world: strict executor, in-memory duplex pipe with PRNG chunking/back-pressure/faults, h2 client <-> h2 server driven by generated application programs; independent wire parser tees every byte"},
         {"name": "raw", "path": "harness/src/engine/raw.rs", "serves_properties": sorted(p for p in PLANS if any(j["bin"] == "rawrun" for j in PLANS[p]["quick"])), "kind_free_text": "one h2 endpoint (either role) with generated application programs against a scripted raw peer that writes bytes from the harness's own serializer/HPACK encoder and keeps a legal shadow state driven only by what the endpoint actually wrote; families: catalogue, headers, fuzz"},
         {"name": "codec", "path": "harness/src/engine/codec.rs", "serves_properties": sorted(p for p in PLANS if any(j["bin"] == "codecrun" for j in PLANS[p]["quick"])), "kind_free_text": "component-level differential engine: h2::Codec and h2::verif::{Decoder,huffman} under scripted transports against the independent frame parser/serializer, the reference HPACK implementation and libnghttp2"},
+        {"name": "thread", "path": "harness/src/engine/threaded.rs", "serves_properties": sorted(p for p in PLANS if any(j["bin"] == "threadrun" for j in PLANS[p]["quick"])), "kind_free_text": "real OS threads on the real library over a thread-safe in-memory pipe that records the byte history without adding synchronisation; wire history rebuilt after joining and judged by the simulator's wire oracles; snapshot invariants on the connection threads; plain, ThreadSanitizer and Miri layers; deadlock watchdog"},
     ],
     "checks": checks,
     "not_applicable": NOT_APPLICABLE,
